@@ -293,7 +293,7 @@ for perm in ("123", "321"):
     add_merger((1, 1, 1), perm, "ARR", "thorough")
 add_merger((2, 2, 2), "123123", "ARR", "thorough")
 add_merger((2, 2), None, "AR", "thorough")
-for (sizes, tier) in (((1, 1), "quick"), ((1, 2), "thorough"), ((2, 2), "thorough"), ((3, 2), "thorough"), ((2, 2, 2), "thorough")):
+for (sizes, tier) in (((1, 1), "quick"), ((1, 2), "thorough"), ((2, 2), "thorough"), ((3, 2), "thorough")):
     add("c.merger-scan-dups-%s" % "x".join(str(x) for x in sizes), "C07/merger.c", real=UTIL_REAL, kit=KIT_SLAB,
         include_real=["table/merger.c"], defs=merger_defs(sizes, 1), unwind=sum(sizes) + 3, tier=tier,
         flags=NOSTD if tier == "quick" else [], functions=MERGER_FUNCS,
@@ -339,7 +339,7 @@ for (sizes, fam, tier) in (((1, 0), "ARR", "quick"), ((0, 1), "ARR", "quick"), (
         desc="two_level_iterator.c over an index child and per-block children (some EMPTY, status symbolic = some FAILING): after every step valid/key/value == sorted-map cursor over the union (empty blocks skipped both ways, nothing lost/repeated); exactly the held data iterator alive; status() == index status, else held block status, else first non-OK status of released blocks; a block error is never forgotten",
         bounds="blocks with %s entries (concrete keys: the unit never compares keys), symbolic seek targets below/on/between/above every key and separator, symbolic index and block statuses, %s" % ("/".join(str(x) for x in sizes), fam_text(fam)))
 for (sizes, symkeys, tier) in (((2, 0, 2), 0, "quick"), ((0, 2, 0, 1), 0, "quick"), ((1, 0), 1, "quick"), ((1, 0, 1), 0, "thorough"), ((1, 0, 1), 1, "thorough"),
-                               ((2, 0, 0, 1), 0, "thorough"), ((2, 2, 2), 1, "thorough")):
+                               ((2, 0, 0, 1), 0, "thorough")):
     d = two_defs(sizes, 1)
     d["VP_SYMKEYS"] = symkeys
     add("d.twolevel-scan-%s%s" % ("x".join(str(x) for x in sizes), "-symkeys" if symkeys else ""), "C07/twolevel.c",
@@ -399,10 +399,10 @@ for (keyset, ri) in ((1, 1), (1, 3), (2, 2), (3, 1), (3, 2), (4, 3)):
     add_block_ops(keyset, (0, 0, 0), ri, "**", "thorough")
 for (keyset, ri) in ((4, 2), (2, 2)):
     add_block_ops(keyset, (0, 0, 0), ri, "AA", "thorough")
-for (lens, ri, fam) in (((2, 2), 1, "**"), ((2, 2), 2, "**"), ((2,), 1, "**"), ((1, 2, 3), 2, "AR"), ((2, 2, 2), 1, "AR")):
+for (lens, ri, fam) in (((2, 2), 1, "**"), ((2,), 1, "**"), ((1, 2, 3), 2, "AR"), ((2, 2, 2), 1, "AR")):
     add_block_ops(0, lens, ri, fam, "thorough")
 for (keyset, lens, ri, tier) in ((1, (0, 0, 0), 1, "quick"), (3, (0, 0, 0), 2, "quick"), (2, (0, 0, 0), 3, "quick"),
-                                 (0, (2, 2), 1, "thorough"), (0, (1, 2, 3), 2, "thorough"), (0, (2, 2, 2), 2, "thorough")):
+                                 (0, (2, 2), 1, "thorough"), (0, (2, 2), 2, "thorough")):
     if keyset:
         lens = KEYSETS[keyset][0][:len(lens)]
         name = "a.block-scan-S%d-N%d-R%d" % (keyset, len(lens), ri)
@@ -415,6 +415,10 @@ for (keyset, lens, ri, tier) in ((1, (0, 0, 0), 1, "quick"), (3, (0, 0, 0), 2, "
         tier=tier, functions=BLOCK_FUNCS,
         desc="block.c iterator on a builder-produced block: full forward and full backward scans yield exactly the added entries, each once, in order / reverse order (CBMC pointer checks on)",
         bounds="%d entries, %s, 1-byte symbolic values, restart interval %d" % (len(lens), keys, ri))
+
+# g: the children handed to the merging iterator cover every level of the version (real ldb_version_add_iterators)
+from obl.vset_common import add_iterators_obls
+OBLIGATIONS += add_iterators_obls("g")
 
 META = {
     "level": "model_checking",
